@@ -137,6 +137,8 @@ MUTANTS = {
     "update_optimum_gt": M(METHOD, "point.GetZ() < self.best.GetZ()", "point.GetZ() > self.best.GetZ()", ["C04"]),
     "shared_bestTrials_default_again": M("iOpt/solution.py", "        if bestTrials is None:\n            bestTrials = [Trial([], [])]\n", "        if bestTrials is None:\n            bestTrials = Solution._DEFAULT\n", ["C12"], note="revert of fix 2 (class attribute added below)"),
     "shared_holder_default_again": M(SDATA, "        if functionValues is None:\n            functionValues = [FunctionValue()]\n", "        if functionValues is None:\n            functionValues = SearchDataItem._DEFAULT\n", ["C12"], note="revert of fix 3"),
+    "solution_kept_on_the_problem_object": M(SDATA, "        self.solution = Solution(problem)", "        self.solution = problem.__dict__.setdefault('_solution', Solution(problem)) if problem is not None else Solution(problem)", ["C12"], note="state kept on the Problem: only two solvers on ONE problem object share it"),
+    "dimension_kept_on_the_parameters_object": M(METHOD, "        self.dimension = task.problem.numberOfFloatVariables", "        parameters.dimension = task.problem.numberOfFloatVariables", ["C06"], note="read back through a property (APPENDIX): solvers of different dimension sharing one SolverParameters object"),
     "class_level_queue": M(SDATA, "        self._RGlobalQueue = CharacteristicsQueue(maxlen)\n        self.__firstDataItem", "        self._RGlobalQueue = SearchData._SHARED_Q\n        self.__firstDataItem", ["C12"]),
     "first_iteration_rerun_by_solve": M(PROCESS, "        startTime = datetime.now()\n", "        if self.__first_iteration is False:\n            self.method.FirstIteration()\n        startTime = datetime.now()\n", ["C11"], note="the commented-out block in Solve, re-enabled"),
     "getimage_no_copy": M(EVOL, "        self.__TransformP2D()\n        return np.copy(self.yValues)", "        self.__TransformP2D()\n        return self.yValues", ["C17"]),
@@ -161,6 +163,7 @@ APPENDIX = {
     "shared_bestTrials_default_again": ("iOpt/solution.py", "\n\nSolution._DEFAULT = [Trial([], [])]\n"),
     "shared_holder_default_again": (SDATA, "\n\nSearchDataItem._DEFAULT = [FunctionValue()]\nSearchData._SHARED_Q = CharacteristicsQueue(None)\n"),
     "class_level_queue": (SDATA, "\n\nSearchData._SHARED_Q = CharacteristicsQueue(None)\n"),
+    "dimension_kept_on_the_parameters_object": (METHOD, "\n\nMethod.dimension = property(lambda self: self.parameters.dimension)\n"),
     "gkls_memoised_by_first_call": ("iOpt/problems/GKLS.py", "\n\nGKLS._memo = {}\n"),
 }
 
